@@ -188,6 +188,7 @@ def run(ctx: Check) -> int:
     # ---- more oracle runs; some with a wall clock that advances inside the tick
     tolerated = [0]
     more = [(tagrep.gen_case(rng, malformed=(i % 6 == 5)), SKEW if i % 4 == 3 else 0.0) for i in range(ctx.n(60, 3000))]
+    more += [(tagrep.gen_gap_case(rng), 0.0) for _ in range(ctx.n(10, 300))]    # reports after gaps of 1..300 ticks
 
     def watch(cs):
         c, skew = cs
